@@ -284,7 +284,7 @@ type state struct {
 	Cert   uint8
 	Store  uint8
 	Extra  uint8 // 0: only the signer certificate is embedded; 1: the attacker's self-signed CA certificate (genuine CSCA DN, attacker key) is embedded as well - embedded certificates are never trust anchors, so the ground truth does not depend on it
-	CS     uint8 // CardSecurity: 0 absent, 1 genuine, 2 genuine with tampered eContent, 3 made and signed by the attacker (certificate cAtkAkiG_NL)
+	CS     uint8 // CardSecurity: 0 absent, 1 genuine, 2 genuine with tampered eContent, 3 made and signed by the attacker (certificate cAtkAkiG_NL), 4 genuine key but stated signing time after the DS certificate expired
 }
 
 var origL = [3]uint8{1, 1, 0}
@@ -333,7 +333,7 @@ func init() {
 		v := v
 		actions = append(actions, action{"env-store:=" + storeNames[v], func(s state) state { s.Store = v; return s }})
 	}
-	for v := uint8(0); v < 4; v++ {
+	for v := uint8(0); v < 5; v++ {
 		v := v
 		actions = append(actions, action{fmt.Sprintf("set-cardsec:=%d", v), func(s state) state { s.CS = v; return s }})
 	}
@@ -478,6 +478,8 @@ func truth(s state) []string {
 		bad = append(bad, "cardsec-content-tampered")
 	case 3:
 		bad = append(bad, "cardsec-signed-by-attacker")
+	case 4:
+		bad = append(bad, "cardsec-signed-outside-its-certificate-validity")
 	}
 	return bad
 }
@@ -546,6 +548,12 @@ func (w *world) cardSecData(cs uint8) *refpki.SignedData {
 		e := append([]byte{}, w.secInfos...)
 		e[len(e)-1] ^= 0x01 // last octet of the last SecurityInfo (an INTEGER / OID content octet)
 		sd.EContent = e
+	case 4:
+		// genuine key and certificate, but the object states a signing time after the DS certificate expired: invalid
+		// on its own, whatever the signing time of the EF.SOD next to it is
+		late := time.Date(2026, 3, 1, 0, 0, 0, 0, time.UTC)
+		sd.SigningTime = &late
+		sd.Sign(w.keys[roleD], refpki.SignOpts{})
 	case 3:
 		sd.Certs = []*refpki.Cert{w.certs[cAtkAkiG_NL]}
 		sd.EContent = refpki.SecurityInfos(refpki.LoadKey(refpki.EC("brainpoolP256r1", false, 23)), false)
@@ -625,20 +633,32 @@ func runPA(f files) verdict {
 				return
 			}
 		}
+		// the same trust anchors presented through every pool type a caller can supply: one GenericCertPool, and a
+		// CombinedCertPool with one sub-pool per certificate (what cms.DefaultMasterList() style stores look like).
+		// Soundness is demanded for each presentation: Success under ANY of them counts.
 		pool := &cms.GenericCertPool{}
+		comb := &cms.CombinedCertPool{}
 		for _, d := range f.store {
 			if err := pool.Add(d); err != nil {
 				v.Stage, v.Err = "CertPool.Add", err.Error()
 				return
 			}
+			sub := &cms.GenericCertPool{}
+			sub.Add(d)
+			comb.AddCertPool(sub)
 		}
-		res, err := passiveauth.PassiveAuth(doc, pool)
-		v.Stage = "PassiveAuth"
-		if err != nil {
-			v.Err = err.Error()
-		}
-		if res != nil && res.Success {
-			v.Success = true
+		for i, pl := range []cms.CertPool{pool, comb} {
+			res, err := passiveauth.PassiveAuth(doc, pl)
+			v.Stage = "PassiveAuth"
+			if err != nil && i == 0 {
+				v.Err = err.Error()
+			}
+			if res != nil && res.Success {
+				v.Success = true
+				if i == 1 && v.Err != "" {
+					v.Err = "accepted with a CombinedCertPool although a GenericCertPool of the same certificates refuses: " + v.Err
+				}
+			}
 		}
 	})
 	if pv != nil {
@@ -1389,7 +1409,7 @@ func replay(c *vc.Ctx, raw json.RawMessage) string {
 			return err.Error()
 		}
 		s := sc.State
-		if int(s.Prof) >= len(allProfiles) || s.Cert >= nCerts || s.Store >= nStores || s.CS > 3 {
+		if int(s.Prof) >= len(allProfiles) || s.Cert >= nCerts || s.Store >= nStores || s.CS > 4 {
 			return "state out of range"
 		}
 		var conv []string
